@@ -8,7 +8,7 @@ PLAN = dict(
     steps=[
         # n = number of programs from the direct linear-AxCut generator (harness/src/gen_axlin.rs), in
         # addition to every .sc program of the default directories and corpus/axlin
-        step("codegen-a64", "codegen-a64", "codegen-a64", 120, 4000,
+        step("codegen-a64", "codegen-a64", "codegen-a64", 120, 1200,
              args=["--defaults", os.path.join(ROOT, "corpus", "axlin")]),
     ],
     rule="linear AxCut programs: (a) every .sc program under /repo/examples, /repo/testsuite, corpus/fun and corpus/axlin through the real "
